@@ -335,7 +335,8 @@ Quiet == /\ \A w \in Writers : wr[w].pc = "idle"
 \* is a violation even if no later round makes the gap visible; a stream whose callback was
 \* removed behind its back silently stops)
 Mon_LiveComplete == Quiet => \A s \in Streams :
-                      (pc[s] = "live" /\ Healthy(s) /\ err[s] = "none") => Complete(sent[s], from[s], head)
+                      (pc[s] = "live" /\ Healthy(s) /\ err[s] = "none") =>
+                          ch[s] = "open" /\ Complete(sent[s], from[s], head)
 
 \* C12 (callback half)
 StalledWorker(s) == wk[s] = "busy" /\ cons[s] = "stalled"
